@@ -221,6 +221,7 @@ const baseCSS = `
 @page :first { margin-top: 30px; @top-left { content: "first" } }
 html { font-family: weasyprint; font-size: 10px; line-height: 12px }
 body { counter-reset: sec par }
+.g1 { background: linear-gradient(to bottom, red 1em, blue 3em) }
 h2 { string-set: chap content(); counter-increment: sec; bookmark-level: 1; bookmark-label: counter(sec) ". " content(); font-size: 12px; margin: 4px 0 }
 h2::before { content: counter(sec) ". "; color: gray }
 p { margin: 3px 0; counter-increment: par; orphans: 1; widows: 1 }
@@ -244,6 +245,14 @@ table { border-collapse: collapse } td { border: 1px solid gray; padding: 1px }
 td::before { content: counter(par) }
 em { font-family: Ahem; font-size: 5px }
 `
+
+var userCSSPool = []string{
+	`p { color: teal } @page { @top-right { content: "u0" } } h2::after { content: " #" }`,
+	`.box { background: linear-gradient(to right, red 1em, blue 4em, lime 90%) } h2 { font-size: 2em }`,
+	`p.c0 { background-image: radial-gradient(circle 2em at 1em 1em, yellow 0.5em, silver 3em), linear-gradient(red, blue 2em) } em { font-size: 3px }`,
+	`li { background: repeating-linear-gradient(45deg, orange 0, white 0.8em) } @page { @top-right { content: "u3" } }`,
+	`td { background: linear-gradient(blue 1em, red) } p::before { color: red }`,
+}
 
 // genDoc builds one document from the generator state
 func genDoc(r *vlib.Rng, i int) Doc {
@@ -274,10 +283,12 @@ func genDoc(r *vlib.Rng, i int) Doc {
 	}
 	d := Doc{Name: fmt.Sprintf("doc%d", i), TestUA: r.Chance(1, 3), Hints: r.Chance(1, 4)}
 	title := lorem(r, 2)
-	d.HTML = fmt.Sprintf(`<!DOCTYPE html><html lang="en"><head><title>%s</title><meta name="author" content="A %d"><meta name="keywords" content="k1, k2"><meta name="description" content="d"><style>%s</style></head><body>%s</body></html>`,
-		title, i, baseCSS, body.String())
-	if r.Chance(1, 2) {
-		d.CSS = append(d.CSS, fmt.Sprintf(`p { color: %s } @page { @top-right { content: "u%d" } } h2::after { content: " #" }`, vlib.Pick(r, colors), i))
+	d.HTML = fmt.Sprintf(`<!DOCTYPE html><html lang="en"><head><title>%s</title><meta name="author" content="A %d"><meta name="keywords" content="k1, k2"><meta name="description" content="d"><style>%s html { font-size: %dpx }</style></head><body class="g%d">%s</body></html>`,
+		title, i, baseCSS, vlib.Pick(r, []int{10, 10, 9, 11, 12, 8}), r.Intn(3), body.String())
+	if r.Chance(2, 3) {
+		// from a small pool, so that different documents (with different font
+		// sizes) share one parsed stylesheet object inside a process
+		d.CSS = append(d.CSS, vlib.Pick(r, userCSSPool))
 		g.tag("user-css")
 	}
 	for t := range g.tags {
